@@ -9,6 +9,9 @@ What is added to the loop-free subset (nothing in py2lean.py / gen_kernels2.py i
                  `<f>_loop<k>_body (captured...) [i] (carried...)` returning the tuple of loop-carried variables, and the loop
                  is `forRange (fun i st => body ...) count start init` - `forRange` (Spec/PyLoops.lean) is structural recursion
                  on the Nat counter `count = (b - a).toNat`;
+  * enumerate    `for i, x in enumerate(l)` over a list of tuples -> `forEnum (fun i x st => body ...) l 0 init` (recursion on the list);
+                 `l[e]` for a list `l` and an int expression `e` -> `pyIndex l e` (negative indices count from the end, IndexError);
+                 lists of plain ints (`List (Int)`);
   * while loops  `while c:`: test and body become `<f>_loop<k>_cond` / `<f>_loop<k>_body`, the loop is
                  `whileFuel cond body fuel init` - fuel recursion; the fuel is a Python int expression *declared per job*
                  (`fuel={'loop1': 'rows'}`), evaluated in the scope of the loop entry.  When the fuel runs out while the test
@@ -19,7 +22,8 @@ What is added to the loop-free subset (nothing in py2lean.py / gen_kernels2.py i
 Loop-carried variables = the names assigned in the loop (incl. the lists appended to) that are bound before the loop, in
 alphabetical order; every other name assigned in the body is a per-iteration temporary.  Captured variables = the names of
 the enclosing scope the loop reads.  A name first bound inside a loop and read after it, `break`, `continue`, `return` inside
-a loop, `else:` clauses of loops and iteration over anything but `range` are refused (`Unsupported`, fail closed).
+a loop, `else:` clauses of loops and iteration over anything but `range` / `enumerate(list)` are refused (`Unsupported`, fail closed).
+Names first bound in one branch of an `if` and read nowhere else in the function are branch temporaries (renamed `tmpb_*`, not joined).
 
 How it works: before translation every loop statement of the function is replaced (purely syntactically) by
       st_loopK = __loop__('loopK');  v1 = st_loopK[0];  v2 = st_loopK[1]; ...
